@@ -19,7 +19,12 @@ never read by unification; `tv1_eq == tv2_eq` is equality of the variable number
 and every number has one cell), `log::trace!` (its arguments are not evaluated when the level is off).
 
 Recursion of the Rust functions is unbounded: `go` takes fuel `f` for the nesting of unification calls and `g` for
-`get_root` / `occur_check`; `none` = ran out.
+`get_root` / `occur_check`; `none` = ran out.  `fuelG` / `fuelF` (below) are proved to suffice on every acyclic store
+(`C04_unify_terminates`), and more fuel never changes an answer (`C04_unify_fuel_irrelevant`).
+
+Tie: body hashes and arm counts of unification.rs (`Gen/Unify.lean`, `C03_unification_functions_pinned`); exact agreement with the
+real functions on verdict, error kinds, parents and `substitute_type` of every variable (`tools/props/c03u.py`, `harness/src/bin/c03u.rs`,
+`Drv/C03u.lean`).  Theorems: `Props/C03.lean` (`C03_unify_sound`, `C03_unify_strict_fragment`), `Props/C04.lean` (`C04_unify_*`).
 -/
 namespace Mimium.Unify
 
